@@ -224,7 +224,7 @@ class Spec:
         t = FP.Term("stroke", (base, params), ("stroke-spec", base.key, id(params)))
         t = FP.Term("c2q", (t, tolerance), ("c2q-spec", t.key))
         t = FP.Term("simplify", (t,), ("simplify", t.key))
-        if ctm is not self.I:
+        if not all(isinstance(v, (int, float)) and v == w for v, w in zip(ctm, self.I)):
             t = FP.Term("xf", (t, ctm), ("xf-spec", t.key, id(ctm)))
         return t
 
@@ -276,6 +276,9 @@ class Spec:
                 if csp.get("display") == "none":
                     continue
                 m3 = self.mul(m2, self.parse_transform(tgt.get("transform")))
+                det = m3[0] * m3[3] - m3[1] * m3[2]
+                if self.truth(self.absf(det) <= 2.220446049250313e-16):
+                    continue  # (numerically) singular: the child collapses, clips nothing in
                 lf = self.leaf(self.shape_cmds(tgt), m3, cprops["clip-rule"])
                 region = lf if region is None else self.op(FP.PathOp.UNION, region, lf)
         if region is None:
@@ -313,6 +316,12 @@ class Spec:
             kids = self.children(el, self.mul(ctm, m), props, new_clips, inner_vp)
             return [Group(opacity, kids)]
         ctm = self.mul(ctm, self.parse_transform(el.get("transform")))
+        if t == "use":
+            # SVG 1.1 5.6: the use becomes a g whose transform is the use's transform with
+            # translate(x,y) appended; that g carries the use's properties (incl. clip-path)
+            x = self.num(el.get("x")) if el.get("x") else 0
+            y = self.num(el.get("y")) if el.get("y") else 0
+            ctm = self.mul(ctm, (1, 0, 0, 1, x, y))
         cp = sp.get("clip-path")
         if cp and cp != "none":
             clips = clips + [self.clip_region(cp, ctm, props)]
@@ -323,10 +332,7 @@ class Spec:
             ref = self.by_id.get(href[1:])
             if ref is None:
                 raise Unsupported("dangling use")
-            x = self.num(el.get("x")) if el.get("x") else 0
-            y = self.num(el.get("y")) if el.get("y") else 0
-            m = self.mul(ctm, (1, 0, 0, 1, x, y))
-            return [Group(opacity, self.element(ref, m, props, clips, viewport, via_use=True))]
+            return [Group(opacity, self.element(ref, ctm, props, clips, viewport, via_use=True))]
         if t in ("rect", "line", "polygon", "polyline", "path"):
             # a (numerically) singular CTM collapses the shape: nothing is painted.
             # The threshold is the float epsilon, as any float implementation must use one.
